@@ -24,26 +24,27 @@ import (
 
 // Cfg selects replication factor, alphabet, budgets and oracles of one E-B search.
 type Cfg struct {
-	RF          int      `json:"rf"`
-	N           int      `json:"n"` // node identities
-	Alphabet    []string `json:"alphabet"`
-	Oracles     []string `json:"oracles"`
-	Drain       bool     `json:"drain"` // internal monitor wake-ups are drained before the next external event
-	MaxWrites   int      `json:"max_writes"`
-	MaxSnaps    int      `json:"max_snaps"`
-	MaxAdds     int      `json:"max_adds"`
-	MaxRestarts int      `json:"max_restarts"`
-	MaxRegs     int      `json:"max_regs"`
-	MaxReads    int      `json:"max_reads"`
-	MaxFaults   int      `json:"max_faults"` // total number of failing replica-calls + monitor failures per path (0 = unbounded)
-	Real        bool     `json:"real"`
-	Clone       bool     `json:"clone"` // second volume whose only replica is a clone of a snapshot of the first
-	Revs        []int64  `json:"revs"`   // initial revision counters of the nodes (C09)
-	States      []string `json:"states"` // initial registration states ("closed" | "rebuilding" | "dirty")
-	InitOps     []string `json:"init_ops"`
-	WBlocks     []int    `json:"wblocks"` // blocks the Wb event may write
-	ViaREST     bool     `json:"via_rest,omitempty"`    // management events go through controller/client -> controller/rest (api.go)
-	MaxReverts  int      `json:"max_reverts,omitempty"` // volume reverts per path (0 = 1)
+	RF           int      `json:"rf"`
+	N            int      `json:"n"` // node identities
+	Alphabet     []string `json:"alphabet"`
+	Oracles      []string `json:"oracles"`
+	Drain        bool     `json:"drain"` // internal monitor wake-ups are drained before the next external event
+	MaxWrites    int      `json:"max_writes"`
+	MaxSnaps     int      `json:"max_snaps"`
+	MaxAdds      int      `json:"max_adds"`
+	MaxRestarts  int      `json:"max_restarts"`
+	MaxRegs      int      `json:"max_regs"`
+	MaxReads     int      `json:"max_reads"`
+	MaxFaults    int      `json:"max_faults"` // total number of failing replica-calls + monitor failures per path (0 = unbounded)
+	Real         bool     `json:"real"`
+	Clone        bool     `json:"clone"`  // second volume whose only replica is a clone of a snapshot of the first
+	Revs         []int64  `json:"revs"`   // initial revision counters of the nodes (C09)
+	States       []string `json:"states"` // initial registration states ("closed" | "rebuilding" | "dirty")
+	InitOps      []string `json:"init_ops"`
+	WBlocks      []int    `json:"wblocks"`                 // blocks the Wb event may write
+	ViaREST      bool     `json:"via_rest,omitempty"`      // management events go through controller/client -> controller/rest (api.go)
+	MaxReverts   int      `json:"max_reverts,omitempty"`   // volume reverts per path (0 = 1)
+	UnmapAnytime bool     `json:"unmap_anytime,omitempty"` // UnB is also enabled while a replica is rebuilding
 }
 
 func (c *Cfg) has(l []string, s string) bool {
@@ -87,8 +88,8 @@ type goodSnap struct {
 }
 
 type frontend struct {
-	up      bool
-	resized int
+	up         bool
+	resized    int
 	failResize bool // the next frontend Resize fails
 }
 
@@ -103,7 +104,7 @@ func (f *frontend) State() types.State {
 	}
 	return types.StateDown
 }
-func (f *frontend) Stats() types.Stats  { return types.Stats{} }
+func (f *frontend) Stats() types.Stats { return types.Stats{} }
 func (f *frontend) Resize(uint64) error {
 	if f.failResize {
 		f.failResize = false
@@ -129,9 +130,9 @@ type cluster struct {
 	calls []call // data-path calls that reached a node (applied or refused by the node)
 
 	// fault script for the operation in flight
-	failIO   map[int]bool    // node -> data call fails before being applied
-	failREST map[string]bool // "node/action" -> REST call fails (connection error)
-	failSig  bool            // next SignalToAdd fails
+	failIO     map[int]bool    // node -> data call fails before being applied
+	failREST   map[string]bool // "node/action" -> REST call fails (connection error)
+	failSig    bool            // next SignalToAdd fails
 	stickyREST map[string]bool // "node/action" fails until healed
 
 	signals []signal
@@ -142,44 +143,45 @@ type cluster struct {
 	notes   []string
 
 	// model of what was acknowledged
-	nWrites  int
-	acked    map[int]bool // write id -> acknowledged
-	issued   map[int]bool
-	nSnaps   int
-	nAdds    int
-	nRestart int
-	nRegs    int
-	nReads   int
-	nFaults  int
-	nDeletes int
-	nResizes int
-	nTicks   int
-	nReverts int
-	undone   map[int]bool // write id -> undone by a volume revert to a snapshot taken before it
-	goodSnaps []goodSnap  // volume snapshots that were reported successful
-	failFold bool
-	killFold bool // the next coalesce: the sync agent's sfold child dies from a signal
-	agents   map[int]http.Handler // node -> router of jiva's REAL sync agent (used for coalesce requests)
-	failFiemap    bool   // the next block-map rebuild of the task's replica: one extent query (FIEMAP) of the base file fails
-	restoreFiemap func()
-	failXfer bool // the next snapshot-file transfer of the sync agent dies half way (the sender exits non-zero)
+	nWrites        int
+	acked          map[int]bool // write id -> acknowledged
+	issued         map[int]bool
+	nSnaps         int
+	nAdds          int
+	nRestart       int
+	nRegs          int
+	nReads         int
+	nFaults        int
+	nDeletes       int
+	nResizes       int
+	nTicks         int
+	nReverts       int
+	nUnmaps        int
+	undone         map[int]bool // write id -> undone by a volume revert to a snapshot taken before it
+	goodSnaps      []goodSnap   // volume snapshots that were reported successful
+	failFold       bool
+	killFold       bool                 // the next coalesce: the sync agent's sfold child dies from a signal
+	agents         map[int]http.Handler // node -> router of jiva's REAL sync agent (used for coalesce requests)
+	failFiemap     bool                 // the next block-map rebuild of the task's replica: one extent query (FIEMAP) of the base file fails
+	restoreFiemap  func()
+	failXfer       bool // the next snapshot-file transfer of the sync agent dies half way (the sender exits non-zero)
 	pendingCleaner int
-	cleanerTick map[int]chan time.Time
-	attachAt map[int]int // be seq -> number of writes issued when it was attached
-	synced   map[int]bool
-	failedBE map[int]bool // be seq -> failed a call by script
-	lostProbes map[int]int // node -> number of upcoming liveness probes of that node that get lost although it is alive
-	regTruth map[int]int64 // node -> revision it registered with, since it last left the volume (ground truth for C09)
-	opFailed map[int]bool // node -> its call failed by script during the current I/O event
-	opIO     bool         // the current event is a data-path operation
+	cleanerTick    map[int]chan time.Time
+	attachAt       map[int]int // be seq -> number of writes issued when it was attached
+	synced         map[int]bool
+	failedBE       map[int]bool  // be seq -> failed a call by script
+	lostProbes     map[int]int   // node -> number of upcoming liveness probes of that node that get lost although it is alive
+	regTruth       map[int]int64 // node -> revision it registered with, since it last left the volume (ground truth for C09)
+	opFailed       map[int]bool  // node -> its call failed by script during the current I/O event
+	opIO           bool          // the current event is a data-path operation
 
 	pendingFailed  []int    // nodes that failed the last I/O: must be detached once the controller is quiescent
 	internalBefore []string // internal events that were pending when the current external event started
 	lastKeyText    string
-	task           *task // replica-side task (rebuild, clone)
-	adds           map[int]*task // AddReplica calls split at factory.Create (node -> task)
-	taskX          *task // controller-side call under step control (the clone volume's Start)
-	cur            *task // the task that owns the CPU right now
+	task           *task                  // replica-side task (rebuild, clone)
+	adds           map[int]*task          // AddReplica calls split at factory.Create (node -> task)
+	taskX          *task                  // controller-side call under step control (the clone volume's Start)
+	cur            *task                  // the task that owns the CPU right now
 	cB             *controller.Controller // second volume (clone scenario)
 	feB            *frontend
 	ctlRouterB     http.Handler
